@@ -52,6 +52,9 @@ def _cmd(rng, nl, issued, cbs, profile, inside=False, depth=0):
     if inside:
         w["remove"] = 26
         w["insert"] = 18
+        if depth >= 3:
+            # entries that run on every call must not add callbacks (exponential growth)
+            w["append"] = w["prepend"] = w["insert"] = 0
     ops = list(w)
     op = rng.choices(ops, [w[o] for o in ops])[0]
     if op in ("append", "prepend"):
